@@ -131,6 +131,9 @@ def get_constants(filename):
     constants = Constants(False)
     with open(filename) as f:
         data = json.load(f)
+    # Setting rMin or rMax resets rp so it must be handled last
+    rp = data.pop('rp', None)
+
     unmatched = {}
     n = len(data)
     while (len(data) > 0):
@@ -148,6 +151,9 @@ def get_constants(filename):
         data, unmatched = unmatched, data
         assert len(data) < n
         n = len(data)
+    if (rp is not None):
+        constants.rp = eval_expr(rp, constants) if isinstance(rp, str) else rp
+
     constants.set_defaults()
     if (constants.CN0 is None):
         constants.getCN0()
